@@ -361,6 +361,9 @@ func runFaultJob(c *Ctl, job *Job, idx int, res *RunResult) {
 		prof.UseStageStart = true
 		prof.WAdvance = 1
 		prof.Checks["C08"] = true
+		// the shared task's context (a third of the worlds) must surround every stage's execution
+		// of it, whatever the stage overrides
+		prof.Checks["C14"] = true
 		res.Sample = map[string]interface{}{"world": w.Summary(), "config": w.ConfigMap()}
 	case "c06s":
 		// a task shared by several stages, with per-stage results of its condition, hooks and commands
@@ -387,6 +390,29 @@ func runFaultJob(c *Ctl, job *Job, idx int, res *RunResult) {
 					}
 					if p.block == "before" && c.Ch.Bool(1, 6, "before-fails") {
 						w.Plans[execID(t.Name, p.block, p.idx, p.v)+"@"+s.Name] = &ExecPlan{Exit: genExit(c.Ch)}
+					}
+				}
+			}
+		}
+		// every stage's execution of the task prints its own lines: what is captured for one stage
+		// (and handed to its dependants) is what that execution wrote, not what a sibling wrote
+		for _, g := range w.AllGraphs() {
+			for _, s := range g.Stages {
+				for _, p := range taskPositions(t) {
+					if p.block != "cmd" {
+						continue
+					}
+					id := execID(t.Name, p.block, p.idx, p.v)
+					pl := w.Plans[id+"@"+s.Name]
+					if pl == nil {
+						cp := *w.Plan(id)
+						pl = &cp
+						w.Plans[id+"@"+s.Name] = pl
+					}
+					n := c.Ch.Choose(3, "lines")
+					pl.Chunks = nil
+					for k := 0; k < n; k++ {
+						pl.Chunks = append(pl.Chunks, Chunk{Stream: 1, Data: []byte(fmt.Sprintf("%s %s line %d\n", s.Name, id, k))})
 					}
 				}
 			}
@@ -529,6 +555,7 @@ func runFaultJob(c *Ctl, job *Job, idx int, res *RunResult) {
 	}
 	if prof.Checks["C06S"] {
 		e.checkC06Shared()
+		e.checkC11Shared()
 	}
 	if prof.Checks["C19"] {
 		e.checkC19()
